@@ -67,7 +67,8 @@ def gen(tier, seed):
             for lon in LON1:
                 yield {'ell': ell, 'lat': lat, 'lon': lon, 'az': az, 'dist': ds, 'kind': 'float'}
     for ell in ('grs80', 'ans'):
-        for lat, lon in ((-37.95103342, 144.42486789), (0.0, 144.42486789), (45.5, -0.45), (-0.3, 10.0)):
+        for lat, lon in ((-37.95103342, 144.42486789), (0.0, 144.42486789), (45.5, -0.45), (-0.3, 10.0),
+                         (-37.500000002, 144.00000000001)):
             for kind in cfg.INTYPES[1:] + cfg.NUMFORMS:
                 yield {'ell': ell, 'lat': lat, 'lon': lon, 'az': [0.0, 0.15, 306.868159, 180.0], 'dist': [54972.271, 1e6],
                        'kind': kind}
@@ -163,7 +164,7 @@ def ev_mp(case, rec):
 
 
 SUBCHECKS = [
-    Sub('direct', gen, ev, chunk=4, floor=1000),
+    Sub('direct', gen, ev, chunk=4, floor=1000, envs=6),
     Sub('mp', gen_mp, ev_mp, chunk=2, floor=100),
 ]
 
